@@ -46,6 +46,17 @@ func (m *multiExecutor) ExecContext(ctx context.Context, f exec.CallbackWithName
 		m.afterHooks(ctx, m.execContext)
 	}()
 
+	// an UPDATE of the batch that assigns a primary-key column is refused before anything runs, as the single
+	// statement is: the images could not follow the row to its new key
+	for _, stmt := range m.parserCtx.MultiStmt {
+		if stmt != nil && stmt.UpdateStmt != nil {
+			single := &updateExecutor{parserCtx: stmt, execContext: m.execContext}
+			if err := single.assertNoPrimaryKeyAssignment(ctx); err != nil {
+				return nil, err
+			}
+		}
+	}
+
 	beforeImages, err := m.beforeImage(ctx, m.parserCtx)
 	if err != nil {
 		return nil, err
